@@ -145,9 +145,14 @@ fn reference(svc: &Sx, total: &[u8]) -> Sx {
     let (status, up): (&str, Vec<u8>) = match &r {
         Err(_) => ("err", Vec::new()),
         Ok((_, None)) => ("eof", Vec::new()),
-        Ok((t, Some(_))) => {
+        Ok((t, Some(iface))) => {
             let mut v = t.clone();
             v.extend_from_slice(rd);
+            if iface == wire::LINE_WISE_IFACE {
+                // that fixture echoes the complete lines only
+                let cut = v.iter().rposition(|b| *b == b'\n').map(|i| i + 1).unwrap_or(0);
+                v.truncate(cut);
+            }
             ("up", v)
         }
     };
@@ -159,13 +164,16 @@ fn run_conc(l: &[Sx]) -> Sx {
     let initial = l[2].as_usize().unwrap();
     let svc = l[3].clone();
     let clients: Vec<Sx> = l[4].as_list().unwrap()[1..].to_vec();
+    let max_override: Option<usize> = l.get(5).and_then(|m| m.as_list()).and_then(|m| m.get(1)).and_then(|m| m.as_usize());
+    let stall_ms: u64 = 600;
+    let has_stall = clients.iter().any(|c| c.as_list().unwrap()[1].as_atom() == Some("stall"));
     let addr = fresh_addr(&transport);
     let stop = Arc::new(AtomicBool::new(false));
     let built = build_service_opts(&svc, true);
     let server = {
         let addr = addr.clone();
         let stop = stop.clone();
-        let max = clients.len() + 2;
+        let max = max_override.unwrap_or(clients.len() + 2);
         thread::spawn(move || {
             varlink::listen(
                 built.service,
@@ -189,20 +197,24 @@ fn run_conc(l: &[Sx]) -> Sx {
             let start = cl[2].as_usize().unwrap() as u64;
             let chunks: Vec<Vec<u8>> = cl[3].as_list().unwrap()[1..].iter().map(|x| x.as_bytes().unwrap()).collect();
             thread::sleep(Duration::from_millis(start));
+            let t_begin = Instant::now();
             let mut conn = match connect(&addr) {
                 Some(c) => c,
-                None => return (false, Vec::new()),
+                None => return (false, Vec::new(), 0u64),
             };
             conn.set_timeout(Duration::from_millis(20000));
             if kind == "idle" {
                 thread::sleep(Duration::from_millis(30));
-                return (true, Vec::new());
+                return (true, Vec::new(), 0);
             }
             for (i, ch) in chunks.iter().enumerate() {
                 if conn.write_all(ch).is_err() {
                     break;
                 }
-                if kind == "slow" {
+                if kind == "stall" && i == 0 {
+                    // a peer that stops in the middle of a message and goes on much later
+                    thread::sleep(Duration::from_millis(stall_ms));
+                } else if kind == "slow" {
                     thread::sleep(Duration::from_millis(25));
                 } else if i % 3 == 2 {
                     thread::sleep(Duration::from_millis(1));
@@ -238,22 +250,34 @@ fn run_conc(l: &[Sx]) -> Sx {
                     }
                 }
             }
-            (closed, got)
+            (closed, got, t_begin.elapsed().as_millis() as u64)
         }));
     }
     let mut obs = Vec::new();
     for (h, c) in handles.into_iter().zip(clients.iter()) {
-        let (closed, got) = h.join().unwrap_or((false, Vec::new()));
+        let (closed, got, elapsed) = h.join().unwrap_or((false, Vec::new(), 0));
         let cl = c.as_list().unwrap();
+        let kind = cl[1].as_atom().unwrap_or("");
+        // while another peer is stalled in the middle of a message, a prompt peer must not wait for it
+        let late = has_stall && (kind == "half" || kind == "dropmid") && elapsed > stall_ms * 2 / 3;
         let total: Vec<u8> = cl[3].as_list().unwrap()[1..].iter().flat_map(|x| x.as_bytes().unwrap()).collect();
         let (replies, up) = split_up(&got);
         obs.push(sx::tagged(
             "c",
-            vec![sx::boolean(closed), sx::tagged("out", split_replies(&replies)), sx::bs(&up), reference(&svc, &total)],
+            vec![sx::boolean(closed), sx::tagged("out", split_replies(&replies)), sx::bs(&up), sx::boolean(late), reference(&svc, &total)],
         ));
     }
     stop.store(true, Ordering::SeqCst);
-    let _ = server.join();
+    // a worker that never finishes (e.g. spinning on a dead connection) must not hang the harness
+    let deadline = Instant::now() + Duration::from_secs(6);
+    while !server.is_finished() && Instant::now() < deadline {
+        thread::sleep(Duration::from_millis(10));
+    }
+    if server.is_finished() {
+        let _ = server.join();
+    } else {
+        obs.push(sx::list(vec![sx::atom("server-did-not-stop")]));
+    }
     if let Some(p) = addr.strip_prefix("unix:") {
         if !p.starts_with('@') {
             let _ = std::fs::remove_file(p);
@@ -538,6 +562,58 @@ impl Suite for ListenSuite {
             return cases;
         }
         let mut tok = 0usize;
+        // (a) one worker, connections one after the other: an upgraded connection whose handler hands
+        //     back an unfinished line and hangs up, then ordinary connections on the same worker
+        for t in ["unix", "tcp"] {
+            let cfg = cfgs.iter().find(|c| c.scripts.iter().any(|n| n == wire::LINE_WISE_IFACE)).unwrap();
+            let mut clients = Vec::new();
+            tok += 1;
+            let v = serde_json::json!({"method": format!("{}.Run", wire::LINE_WISE_IFACE), "upgrade": true,
+                "parameters": {"token": format!("t{}z", tok), "script": [{"op":"upgrade"},{"op":"reply","p":{"token": format!("t{}z", tok)}}]}});
+            let mut total = serde_json::to_vec(&v).unwrap();
+            total.push(0);
+            total.extend_from_slice(b"line one\nline two\nunfinished {\"method\":");
+            clients.push(client_sx("half", 0, &[total.clone()], &total));
+            for k in 1..=3usize {
+                tok += 1;
+                let r = serde_json::to_vec(&serde_json::json!({"method":"org.varlink.service.GetInfo","parameters":{"token": format!("t{}z", tok)}})).unwrap();
+                let mut tt = r.clone();
+                tt.push(0);
+                clients.push(client_sx("half", 150 * k, &[tt.clone()], &tt));
+            }
+            let mut cl = vec![sx::atom("clients")];
+            cl.extend(clients);
+            cases.push(Case {
+                input: sx::tagged("listen-conc", vec![sx::atom(t), sx::nat(1), cfg.sx.clone(), sx::list(cl), sx::tagged("max", vec![sx::nat(1)])]),
+                tags: vec!["sequential-on-one-worker".into(), "upgrade-returns-unfinished-line".into()],
+            });
+        }
+        // (b) a peer stalled in the middle of a message beside prompt peers
+        for t in ["unix", "tcp"] {
+            let cfg = &cfgs[1];
+            let mut clients = Vec::new();
+            tok += 1;
+            let r = serde_json::to_vec(&serde_json::json!({"method":"org.varlink.service.GetInfo","parameters":{"token": format!("t{}z", tok)}})).unwrap();
+            let mut tt = r.clone();
+            tt.push(0);
+            let cutpos = tt.len() / 2;
+            clients.push(client_sx("stall", 0, &[tt[..cutpos].to_vec(), tt[cutpos..].to_vec()], &tt));
+            for k in 0..4usize {
+                let mut reqs = Vec::new();
+                for _ in 0..3 {
+                    tok += 1;
+                    reqs.push(gen_request(&mut rng, cfg, &format!("t{}z", tok)));
+                }
+                let total = stream_of(&reqs);
+                clients.push(client_sx("half", 100 + 40 * k, &[total.clone()], &total));
+            }
+            let mut cl = vec![sx::atom("clients")];
+            cl.extend(clients);
+            cases.push(Case {
+                input: sx::tagged("listen-conc", vec![sx::atom(t), sx::nat(2), cfg.sx.clone(), sx::list(cl)]),
+                tags: vec!["stalled-peer-beside-prompt-peers".into()],
+            });
+        }
         let n = if ctx.thorough { 160 } else { 28 };
         for i in 0..n {
             let transport = ["unix", "tcp", "abstract"][i % 3];
